@@ -1,4 +1,4 @@
-From Tramp Require Import Model.Base Model.Codec Model.Driver Proofs.CodecProofs Proofs.DriverProofs Props.C17.
+From Tramp Require Import Model.Base Model.Codec Model.Driver Proofs.CodecProofs Proofs.DriverProofs Check.CodecCheck Props.C17.
 From Coq Require Import Permutation.
 Check C17_chunking : forall chunks : list (list N), feed [] chunks = frames (concat chunks).
 Check C17_partition_independent : forall c1 c2 : list (list N), concat c1 = concat c2 -> feed [] c1 = feed [] c2.
@@ -28,3 +28,7 @@ Print Assumptions C17_never_interleaved.
 Print Assumptions C17_at_most_one_reply.
 Print Assumptions C17_exactly_one_reply_when_quiet.
 Print Assumptions C17_every_request_is_answered.
+Check C17_forced_schedule_is_completion_order : forall n order,
+  NoDup order -> (forall id, In id order -> id < N.of_nat n) ->
+  run_driver n order = order ++ filter (fun id => negb (existsb (N.eqb id) order)) (map N.of_nat (seq 0 n)).
+Print Assumptions C17_forced_schedule_is_completion_order.
